@@ -6,8 +6,16 @@
    instantiated with two records of generated definitions ([lnds_gen], [lis_gen]) from
    Gen/LisIdx.v, so each function keeps its own anchors.  Definitions only.
 
-   slices.BinarySearchFunc is standard library (go1.23 slices/sort.go), not part of the repo: its
-   loop is hand-copied in [std_binsearch] (tied by the correspondence runs only).
+   slices.BinarySearchFunc is standard library, not part of the repo.  The skeleton therefore takes
+   the standard search as a PARAMETER [std]; it is instantiated twice:
+     - [lis_func]: with [std_binsearch], a hand copy of the go1.23 loop (slices/sort.go).  This is
+       the extracted model the correspondence runs replay.
+     - [lis_func_std impl]: with ANY function [impl] on the list of comparison results
+       cmp(x[0],target), cmp(x[1],target), ...  LisProofs proves LISFunc optimal for every [impl]
+       that meets the DOCUMENTED contract of slices.BinarySearchFunc (LisSpec.bsf_meets_contract:
+       on a slice sorted with respect to cmp it returns the smallest index i with
+       cmp(x[i],target) >= 0, len(x) if there is none), proves that the hand copy meets that
+       contract, and that all such instantiations return the same result.
 
    Result: [Some out]; [None] = a panic (index out of range) or exhausted loop fuel or an unwritten
    slot of `ret` -- LisProofs proves it never happens. *)
@@ -132,13 +140,30 @@ Section Lis.
   Definition std_binsearch (vs : list T) (sub : list Z) (target : T) : option Z :=
     std_binsearch_loop (S (length sub)) vs sub target 0 (zlen sub).
 
-  Definition search (g : lis_gen) (vs : list T) (sub : list Z) (target : T) : option Z :=
+  (* the standard library's search as seen from LISFunc: the input vs (captured by the closure),
+     the searched index slice, the target; None = panic *)
+  Definition std_search : Type := list T -> list Z -> T -> option Z.
+
+  (* no call of the standard search in this function *)
+  Definition no_std : std_search := fun _ _ _ => None.
+
+  (* an implementation given only by what it does with the comparison results
+     [cmp(vs[sub[0]],target); cmp(vs[sub[1]],target); ...] (the closure panics on an index outside
+     vs: None) *)
+  Definition std_of (impl : list Z -> option Z) : std_search := fun vs sub target =>
+    match all_some (map (fun idx => key_cmp vs idx target) sub) with
+    | Some ks => impl ks
+    | None => None
+    end.
+
+  Definition search (std : std_search) (g : lis_gen) (vs : list T) (sub : list Z) (target : T)
+    : option Z :=
     if g_nsearch g =? 1 then
-      if g_right g then bisect_right vs sub target else std_binsearch vs sub target
+      if g_right g then bisect_right vs sub target else std vs sub target
     else None.
 
   (* one iteration of the main loop; [i0] is the range index (before i++) *)
-  Definition step (g : lis_gen) (vs : list T) (i0 : Z) (st : list Z * list Z)
+  Definition step (std : std_search) (g : lis_gen) (vs : list T) (i0 : Z) (st : list Z * list Z)
     : option (list Z * list Z) :=
     let (tails, prev) := st in
     let i := g_i_incr g i0 in
@@ -155,7 +180,7 @@ Section Lis.
         else
           match zslice_hi tails (g_search_hi g (zlen tails)) with
           | Some sub =>
-            match search g vs sub vi with
+            match search std g vs sub vi with
             | Some ri =>
               let pv :=
                 if g_first_cond g ri then Some (g_neg1 g) else znth tails (g_pred_idx g ri) in
@@ -181,13 +206,14 @@ Section Lis.
     end.
 
   (* for i := range vs[1:] : one iteration per element of the ranged slice, index from 0 *)
-  Fixpoint main_loop (g : lis_gen) (vs : list T) (rng : list T) (i0 : Z) (st : list Z * list Z)
+  Fixpoint main_loop (std : std_search) (g : lis_gen) (vs : list T) (rng : list T) (i0 : Z)
+           (st : list Z * list Z)
     : option (list Z * list Z) :=
     match rng with
     | [] => Some st
     | _ :: rng' =>
-      match step g vs i0 st with
-      | Some st' => main_loop g vs rng' (i0 + 1) st'
+      match step std g vs i0 st with
+      | Some st' => main_loop std g vs rng' (i0 + 1) st'
       | None => None
       end
     end.
@@ -224,14 +250,14 @@ Section Lis.
     | None => None
     end.
 
-  Definition run_func (g : lis_gen) (vs : list T) : option (list T) :=
+  Definition run_func (std : std_search) (g : lis_gen) (vs : list T) : option (list T) :=
     if g_empty_cond g (zlen vs) then Some vs
     else
       match init_state g vs with
       | Some st0 =>
         match zslice_lo vs (g_range_lo g) with
         | Some rng =>
-          match main_loop g vs rng 0 st0 with
+          match main_loop std g vs rng 0 st0 with
           | Some (tails, prev) =>
             let ret := repeat (@None T) (Z.to_nat (g_ret_len g (zlen tails))) in
             match znth tails (g_start_idx g (zlen tails)) with
@@ -249,6 +275,10 @@ Section Lis.
       | None => None
       end.
 
-  Definition lnds_func (vs : list T) : option (list T) := run_func lnds_gen vs.
-  Definition lis_func (vs : list T) : option (list T) := run_func lis_gen_ vs.
+  Definition lnds_func (vs : list T) : option (list T) := run_func no_std lnds_gen vs.
+  Definition lis_func (vs : list T) : option (list T) := run_func std_binsearch lis_gen_ vs.
+
+  (* LISFunc over any implementation of the standard search *)
+  Definition lis_func_std (impl : list Z -> option Z) (vs : list T) : option (list T) :=
+    run_func (std_of impl) lis_gen_ vs.
 End Lis.
